@@ -5,7 +5,7 @@
      acc   pid cc d                         a decision of packetAccumulator.add (hook): duplicate | discontinuity | flush-pusi |
                                             flush-psi-complete
      group pid ccs n pusi                   the PacketsParser is handed a group (NextData parses what the pool returned)
-     pat   progs                            a PAT was delivered (updateData learns its PMT PIDs)
+     pat   pid progs                        a PAT was delivered on pid (updateData learns its PMT PIDs when pid = 0)
      eof                                    ErrNoMorePackets (after the end-of-stream dump)
    Each `pkt` takes PacketPool!AddStep; the decisions it predicts must be exactly the `acc` events that follow, the group it
    predicts (when NextData would parse it) exactly the next `group` event; at the end of the stream the groups are
@@ -53,7 +53,8 @@ OnGroup(s, e) ==
     ELSE RepIf(GroupOf(d.out) # got, [s EXCEPT !.q = d.q, !.dumping = TRUE],
                V("dumped-group-differs-from-predicted", s, [pid |-> e.pid, n |-> e.n, wantpid |-> d.pid, wantn |-> Len(d.out)]))
 
-OnPat(s, e) == [s EXCEPT !.pmap = s.pmap \cup {e.progs[k][2] : k \in {j \in DOMAIN e.progs : e.progs[j][1] > 0}}]
+\* PacketPool!Learn: only a PAT delivered on PID 0 teaches program map PIDs (a PAT-shaped section on another PID is just a section)
+OnPat(s, e) == IF e.pid # 0 THEN s ELSE [s EXCEPT !.pmap = s.pmap \cup {e.progs[k][2] : k \in {j \in DOMAIN e.progs : e.progs[j][1] > 0}}]
 
 OnEOF(s0, e) ==
   LET s == ClearLeft(s0)
